@@ -161,6 +161,18 @@ CLAIMED.update({
     },
 })
 
+CLAIMED.update({
+    "C19": {
+        "technique": "static analysis: type-resolved who-may-call / who-may-hold census over the whole workspace; path rule on Drop; def-use reachability; call-tree search for yield sources",
+        "level": ("Static, whole workspace: Drop for SpawnedTask aborts on every path and the handle cannot be cloned or extracted; task and "
+                  "thread spawning functions (tokio spawn family, JoinSet::spawn*, Handle/Runtime::spawn*, std::thread) are called only "
+                  "inside datafusion-common-runtime and no struct outside it stores a JoinHandle/JoinSet; ReceiverStreamBuilder::build "
+                  "moves its JoinSet into the returned stream; each of the 14 types declaring SchedulingType::Cooperative reaches a yield "
+                  "source in execute/open (two frozen constant/one-shot streams). Necessary conditions for 'drop stops background work' "
+                  "and for cancellation to take effect; bounded time and per-drop-point behaviour are not decided."),
+    },
+})
+
 NA = {
     'C01': 'whole-pipeline value semantics over all queries x all table contents: functional verification, no clause visible in code shape beyond C03/C05/C47',
     'C08': 'ordering/permutation of runtime values (loser tree, cursors, heaps are value algorithms); no structural clause',
